@@ -29,7 +29,7 @@ RULE = ('family = one dataset src.map(u0).map(fresh).cache(keep_mem_free=K) (fre
         'call counter per index, memory state. Non-trivial = at least one access hit '
         'an already frozen example or the memory fault fired; distinct = distinct '
         '(dataset, history).')
-PROBES = ['concurrent_access_by_key', 'eager_cache_of_duplicate_keys_without_length', 'two_clients_same_index_at_once', 'held_iterator_met_entry_cached_meanwhile', 'second_cache_created_after_first_crossed',
+PROBES = ['eager_cache_of_a_raw_container_dataset', 'concurrent_access_by_key', 'eager_cache_of_duplicate_keys_without_length', 'two_clients_same_index_at_once', 'held_iterator_met_entry_cached_meanwhile', 'second_cache_created_after_first_crossed',
           'cache_hit_after_threshold', 'cache_miss_after_threshold',
           'negative_index_hits_positive_entry', 'key_hits_index_entry',
           'copy_shares_cache', 'prefetch_worker_filled_cache',
@@ -156,6 +156,8 @@ def gen(rng, tier, index):
         c['ops'] = gen_ops(rng, n, src == 'dict', rng.randrange(6, 23), flap)
         if eager and rng.random() < 0.35:
             c['eager_dup'] = True
+        elif eager and rng.random() < 0.25:
+            c['eager_raw'] = True
         if eager:
             c['ops'] = [o for o in c['ops'] if o[0] in
                         ('get', 'getneg', 'key', 'slice_iter', 'iter', 'iter_k',
@@ -710,7 +712,73 @@ def _run_eager_dup(case, up, ctx, m):
     return {'fired': dict(fired), 'hits': hits, 'trace': trace}
 
 
+def _run_eager_raw(case, ctx, m):
+    """eager cache applied directly to a raw ListDataset / DictDataset (what
+    `from_file(..., immutable_warranty=None)` returns): a snapshot of content and
+    order at call time, independent of the container it was taken from"""
+    n = case['n']
+    fired = collections.Counter()
+    trace = []
+    exs = [{'src': i, 'l': [i]} for i in range(n)]
+    if case['source'] == 'dict':
+        container = {'k%d' % i: e for i, e in enumerate(exs)}
+        raw = ldc.DictDataset(container)
+    else:
+        container = list(exs)
+        raw = ldc.ListDataset(container)
+    ds = raw.cache(lazy=False)
+    snapshot = [W.norm({'src': i, 'l': [i]}) for i in range(n)]
+    hits = 0
+    last = None
+    for op, arg in case['ops']:
+        if m.violations:
+            break
+        if op in ('get', 'getneg', 'npget', 'key'):
+            i = arg if not isinstance(arg, (list, tuple)) else arg[0]
+            last = ds['k%d' % i] if (op == 'key' and case['source'] == 'dict') else ds[i]
+            got = [(i, last)]
+        elif op in ('iter', 'iter_k', 'items_iter', 'slice_iter'):
+            got = list(enumerate(ds))
+            if len(got) != n:
+                m.bad('eager_snapshot_changed', 'eager_snapshot_changed:length:raw_container',
+                      'the eager cache of %d examples iterates %d' % (n, len(got)))
+                break
+            last = got[-1][1] if got else last
+        elif op == 'mutate':
+            # the client damages what it was handed AND the container the
+            # snapshot was taken from
+            if last is not None:
+                _mutate(last)
+                last['l'].append('MUT') if isinstance(last, dict) and 'l' in last else None
+            if case['source'] == 'dict':
+                container['k0']['l'].append('SRC')
+                container['extra%d' % len(container)] = {'src': 99}
+            else:
+                container[0]['l'].append('SRC')
+                container.append({'src': 99})
+            fired['client_mutation'] += 1
+            m.probes['mutation_then_reread'] = 1
+            continue
+        else:
+            continue
+        for i, v in got:
+            hits += 1
+            nv = W.norm(v)
+            trace.append(('raw', i, nv))
+            if nv != snapshot[i]:
+                m.bad('eager_snapshot_changed', 'eager_snapshot_changed:raw_container',
+                      'eager cache of a raw %s returned %s for index %d, snapshot at call time %s'
+                      % (type(raw).__name__, W.short(nv, 90), i, W.short(snapshot[i], 90)))
+                break
+    fired['eager'] += 1
+    fired['eager_raw_container'] += 1
+    m.probes['eager_cache_of_a_raw_container_dataset'] = 1
+    return {'fired': dict(fired), 'hits': hits, 'trace': trace}
+
+
 def _run_eager(case, up, ctx, m):
+    if case.get('eager_raw'):
+        return _run_eager_raw(case, ctx, m)
     if case.get('eager_dup'):
         return _run_eager_dup(case, up, ctx, m)
     n = case['n']
